@@ -233,6 +233,81 @@ pub fn run_policy(ctx: &mut Ctx, scn: &StoreScn) {
             }
         }
     }
+    // third round, interval sync only: the guarantee also holds while clients write. Two writer
+    // threads append under injected disk latency (so the writer lock is held over simulated
+    // time and sync ticks fall into those periods). Between two forced syncs there may be the
+    // interval plus whatever time the syncing thread itself had to wait (for the writer lock,
+    // for the disk): simulated time only passes while threads wait, so that sum is exact and
+    // does not depend on how the sync loop is written or on lock fairness.
+    if ctx.out.violations.is_empty() {
+        if let SyncCfg::IntervalMs(dms) = cfg.sync {
+            let dn = dms * 1_000_000;
+            ctx.sim.enable_wait_log();
+            let saved = fsim::with_fs(ctx.sim, |fs| {
+                let sv = fs.legal.clone();
+                fs.legal.latency_per_mille = 400;
+                fs.legal.max_latency_ns = dn.max(2_000);
+                sv
+            });
+            let seq3 = store::io_seq(ctx.sim);
+            let mut joins = Vec::new();
+            for w in 0..2usize {
+                let h = s.h.clone();
+                let keys = keys.clone();
+                joins.push(simrt::spawn(&format!("c18-writer-{}", w), simrt::sched::DEFAULT_STACK, move || {
+                    for j in 0..12usize {
+                        let k = &keys[(w + 2 * j) % keys.len()];
+                        let _ = store::set(&h, k, Val { tag: 620_000 + (w * 100 + j) as u32, len: if j == 5 { 9000 } else { 30 } }.bytes());
+                    }
+                }));
+            }
+            for j in joins {
+                let _ = j.join();
+            }
+            // the tail runs without injected latency, so that no wait is still in progress when
+            // the observation ends (only completed waits are in the wait log)
+            fsim::with_fs(ctx.sim, move |fs| fs.legal = saved);
+            ctx.sim.sleep_thread(ctx.me, 3 * dn + 1_000);
+            let t_end3 = ctx.sim.now_ns();
+            let mut writers: Vec<usize> = ctx.sim.threads_named("c18-writer-0");
+            writers.extend(ctx.sim.threads_named("c18-writer-1"));
+            let me = ctx.me;
+            let (all_fsyncs, merged): (Vec<(u64, u64, usize)>, bool) = fsim::with_fs(ctx.sim, |fs| {
+                let f = fs.log.iter().filter(|r| r.seq > seq_open && r.res >= 0 && r.op == IoOp::Fsync && r.tid != me && !writers.contains(&r.tid) && fs.path_name(r.path).ends_with(".data")).map(|r| (r.seq, r.now, r.tid)).collect();
+                let m = fs.log.iter().any(|r| r.seq > seq3 && r.op == IoOp::Create && fs.path_name(r.path).ends_with(".hint"));
+                (f, m)
+            });
+            if merged {
+                // merges force their own files and keep the worker busy: not this round's subject
+                ctx.sim.probe("sync_under_writers_round_skipped_merge_ran");
+            } else if let Some(&(_, t0, tid0)) = all_fsyncs.iter().filter(|(q, _, _)| *q <= seq3).last() {
+                ctx.sim.probe("sync_under_writers_compared");
+                let log = ctx.sim.wait_log();
+                // waits of the store's own threads (its worker and whatever threads it syncs on)
+                let waited = |a: u64, b: u64| -> u64 { log.iter().filter(|(t, _, _)| *t != me && !writers.contains(t)).map(|(_, f, e)| (*e).min(b).saturating_sub((*f).max(a))).sum() };
+                let _ = tid0;
+                let mut prev = t0;
+                let mut points: Vec<u64> = all_fsyncs.iter().filter(|(q, _, _)| *q > seq3).map(|(_, t, _)| *t).collect();
+                points.push(t_end3);
+                for t in points {
+                    let gap = t.saturating_sub(prev);
+                    let w = waited(prev, t);
+                    if w > 0 {
+                        ctx.sim.probe("sync_tick_waited_for_writer_or_disk");
+                    }
+                    if gap > dn + w + 1_000 {
+                        ctx.viol(
+                            "sync-gap-under-writers",
+                            format!("with interval sync every {}ms and clients writing, {}us passed without a forced sync of a data file although the store's own threads waited only {}us for locks and disk in that span", dms, gap / 1000, w / 1000),
+                            "",
+                        );
+                        break;
+                    }
+                    prev = t;
+                }
+            }
+        }
+    }
     ctx.sig(mix(mode, mix(never as u64, mix(predicate as u64, mix(matches!(cfg.sync, SyncCfg::IntervalMs(_)) as u64, (hint_creates.len() as u64).min(3))))));
     ctx.out.nontrivial = true;
     drop(s);
